@@ -13,6 +13,7 @@ import (
 	"math/big"
 	"os"
 	"path/filepath"
+	"regexp"
 	"sort"
 	"strings"
 )
@@ -86,6 +87,43 @@ func cOpt(s *string) string {
 	return "(Some " + *s + ")"
 }
 
+// finalizeIDs replaces the @A:hex@ placeholders of one case by order-preserving small ids (rank among
+// all address-like values of the case) and the @P:hex@ placeholders by arbitrary distinct small ids.
+// Large literals are what makes Coq slow to read a case file; the model only ever compares and
+// orders these values.
+var placeholderRe = regexp.MustCompile(`@([AP]):([0-9a-f]+)@`)
+
+func finalizeIDs(s string) string {
+	as, ps := map[string]bool{}, map[string]bool{}
+	for _, m := range placeholderRe.FindAllStringSubmatch(s, -1) {
+		if m[1] == "A" {
+			as[m[2]] = true
+		} else {
+			ps[m[2]] = true
+		}
+	}
+	rank := func(set map[string]bool) map[string]int {
+		keys := make([]string, 0, len(set))
+		for k := range set {
+			keys = append(keys, k)
+		}
+		sort.Strings(keys)
+		res := map[string]int{}
+		for i, k := range keys {
+			res[k] = i + 1
+		}
+		return res
+	}
+	ar, pr := rank(as), rank(ps)
+	return placeholderRe.ReplaceAllStringFunc(s, func(x string) string {
+		m := placeholderRe.FindStringSubmatch(x)
+		if m[1] == "A" {
+			return fmt.Sprintf("%d%%N", ar[m[2]])
+		}
+		return fmt.Sprintf("%d%%N", pr[m[2]])
+	})
+}
+
 // ---------- stats ----------
 type Stats struct {
 	Family      string           `json:"family"`
@@ -113,7 +151,14 @@ type Violation struct {
 func (s *Stats) Count(k string) { s.Dist[k]++ }
 func (s *Stats) Chk(k string)   { s.KnownChecks[k]++ }
 func (s *Stats) Violate(prop, monitor, key, what string, replay any) {
-	if len(s.Violations) < 50 {
+	n := 0
+	for _, v := range s.Violations {
+		if v.Property == prop && v.Key == key {
+			n++
+		}
+	}
+	s.Dist["violation:"+prop+":"+key]++
+	if n < 2 && len(s.Violations) < 60 {
 		s.Violations = append(s.Violations, Violation{prop, monitor, what, key, replay})
 	}
 }
